@@ -100,14 +100,14 @@ namespace {
 // ------------------------------------------------------------------ scenarios
 
 enum Kind { K_VEC_INT = 0, K_VEC_STR, K_MAP, K_REQUIRES, K_EXCLUDES, K_GLOBAL, K_CHECKS, K_USAGE, K_LISTVARS,
-            K_TUPLE, K_BITSET, K_SET_FORMAT, K_ENVVAR, K_ARGFILE, NKINDS };
+            K_TUPLE, K_BITSET, K_SET_FORMAT, K_ENVVAR, K_ARGFILE, K_ENDVALUES, NKINDS };
 const char* const kindNames[NKINDS] = { "vector-int", "vector-string", "map", "requires", "excludes", "global-constraint",
-                                        "checks", "usage", "list-arg-vars", "tuple-array", "bitset", "set-format", "env-var", "arg-file" };
+                                        "checks", "usage", "list-arg-vars", "tuple-array", "bitset", "set-format", "env-var", "arg-file", "end-values" };
 /// family of a scenario kind = what the stable key of a sequential-equivalence violation names
 /// (one defect in shared state must not produce a dozen keys, different areas stay apart)
 const char* const kindFamily[NKINDS] = { "container-values", "container-values", "container-values", "constraints", "constraints",
                                          "constraints", "checks", "output", "output", "container-values", "container-values",
-                                         "container-values", "sources", "sources" };
+                                         "container-values", "sources", "sources", "container-values" };
 const char SEPS[7] = { ',', ';', ':', '+', '|', '/', '#' };
 const char* const WORDS[12] = { "alpha", "Bravo", "charlie", "DELTA", "echo", "Foxtrot", "golf", "Hotel", "india", "JULIET", "kilo", "Lima" };
 
@@ -228,6 +228,18 @@ Scenario makeScenario(vh::Rng& r, int kind, int sepIdx)
    case K_SET_FORMAT:
       sc.argv = { "-s", joinStrs(sc.words, sc.sep), "-n", joinInts(sc.nums, sc.sep2) };
       break;
+   case K_ENDVALUES:
+   {
+      // every scenario registers the "end of the value list" argument under its own key (variant); a multi-value list,
+      // the end marker, then the free value of the positional argument
+      static const char* const LONGS[4] = { "endvalues", "end-list", "stop", "end" };
+      std::vector<std::string> v = { "-v" };
+      for (int n : sc.nums) v.push_back(std::to_string(n));
+      v.push_back(std::string("--") + LONGS[sc.variant % 4]);
+      v.push_back(sc.words[0]);
+      sc.argv = v;
+      break;
+   }
    case K_ARGFILE:
       // argument file <dir>/args<variant % 4>.txt (written in main() before any thread starts): variant < 4 -> all threads of a
       // case read the same file; the file holds "-i <n>" and "--tag file<k>", two of them include a nested file
@@ -442,6 +454,19 @@ std::string runScenario(const Scenario& sc)
          dump << "i=" << i << " s=" << s << " tag=" << tag;
          break;
       }
+      case K_ENDVALUES:
+      {
+         static const char* const SPECS[4] = { "endvalues", "E,end-list", "stop", "x,end" };
+         std::vector<int> v;
+         std::string free;
+         Handler ah(out, err, 0);
+         ah.addArgumentEndValues(SPECS[sc.variant % 4]);
+         ah.addArgument("v", DEST_VAR(v), "Values")->setTakesMultiValue();
+         ah.addArgument("-", DEST_VAR(free), "Free value");
+         ah.evalArguments(ac, av.data());
+         dump << "v=" << dumpSeq(v) << " free=" << free;
+         break;
+      }
       case K_ARGFILE:
       {
          int i = -1;
@@ -589,13 +614,13 @@ int main(int argc, char** argv)
       // scenarios: consecutive kinds and consecutive separators, so that the threads of a case differ
       std::vector<Worker> ws(T);
       const int k0 = (int)r.below(NKINDS), s0 = (int)r.below(7);
-      const int kstep = 1 + (int)r.below(4) * 2;     // NKINDS = 13: every step is coprime
+      const int kstep = 1 + (int)r.below(4) * 2;     // NKINDS = 16
       const bool envCase = r.chance(1, 4);
       const int envBase = (int)r.below(8);
       const bool fileCase = r.chance(1, 2), sameFile = r.chance(1, 2);
       // several threads print a usage at the same time; the handler asks the library-internal Groups singleton whether it is
       // evaluated by a group - every case starts without that object, so the threads race for its creation
-      const bool usageCase = !envCase && r.chance(1, 4);
+      const bool usageCase = !envCase && r.chance(1, 3), endCase = r.chance(1, 2);
       celma::prog_args::Groups::reset();
       uint64_t h = vh::hash_u64(T, vh::hash_u64(level));
       for (unsigned t = 0; t < T; ++t)
@@ -605,7 +630,7 @@ int main(int argc, char** argv)
          int kind = (k0 + (int)t * kstep) % NKINDS;
          if (t < 2 && r.chance(1, 2)) kind = (t == 0) ? K_VEC_INT : K_VEC_STR;
          if (envCase && t < 3) kind = fileCase ? K_ARGFILE : K_ENVVAR;
-         if (usageCase && t < 4) kind = K_USAGE;
+         if (usageCase && t < 4) kind = endCase ? K_ENDVALUES : K_USAGE;
          ws[t].sc = makeScenario(r, kind, s0 + (int)t);
          if (kind == K_ARGFILE && envCase)
          {
@@ -643,6 +668,26 @@ int main(int argc, char** argv)
          out.stat("sequential_runs", 2);
          if (again != ws[t].expected)
             out.stat("selfcheck_sequential_not_deterministic");
+         // process-wide state that an earlier handler left behind shows already in the sequential run (it would hide from
+         // the comparison "concurrent == alone"): for these kinds the result of running alone is known in advance
+         if (ws[t].sc.kind == K_ENDVALUES)
+         {
+            std::string want = "ok | v=[";
+            for (size_t i = 0; i < ws[t].sc.nums.size(); ++i) want += (i ? "\x1f" : "") + std::to_string(ws[t].sc.nums[i]);
+            want += "] free=" + ws[t].sc.words[0] + " | out= | err=";
+            out.stat("sequential_results_compared_with_the_known_result");
+            if (ws[t].expected != want)
+               out.viol(std::string("sequential-result|") + kindFamily[ws[t].sc.kind], std::string(d) + ": scenario {" + ws[t].sc.descr +
+                        "} run alone (after other handlers were used in this process) gave {" + oneLine(ws[t].expected, 400) + "}, expected {" + oneLine(want, 300) + "}");
+         }
+         if (ws[t].sc.kind == K_ENVVAR)
+         {
+            const std::string want = "ok | i=" + std::to_string(1000 + ws[t].sc.variant) + " s=" + ws[t].sc.words[0] + " tag=env" + std::to_string(ws[t].sc.variant) + " | out= | err=";
+            out.stat("sequential_results_compared_with_the_known_result");
+            if (ws[t].expected != want)
+               out.viol(std::string("sequential-result|") + kindFamily[ws[t].sc.kind], std::string(d) + ": scenario {" + ws[t].sc.descr +
+                        "} run alone (after other handlers were used in this process) gave {" + oneLine(ws[t].expected, 400) + "}, expected {" + oneLine(want, 300) + "}");
+         }
          if (ws[t].expected.compare(0, 2, "ok") == 0) out.stat("scenarios_expected_ok");
          else out.stat("scenarios_expected_throw");
          if (verbose) out.sample("T" + std::to_string(t) + ": " + ws[t].sc.descr + "  ->  " + oneLine(ws[t].expected, 900));
